@@ -111,7 +111,42 @@ def replay_history_case(case):
             if nm in f["grp"]:
                 chans[nm] = f["grp"][nm]
     iters = {}
+    delivered = {}
+    obs = {}
     n = 0
+    # what every generator yields on a FRESH file (non-empty chunks), checked once against the file's content:
+    # concatenation = the channel's data, offsets = running count
+    fresh = {}
+    f0 = TdmsFile.open(io.BytesIO(e.data), raw_timestamps=True)
+    for nm in ("x", "y"):
+        seq = []
+        if "grp" in f0 and nm in f0["grp"]:
+            seq = [{nm: _chunk_obs(c, tys[nm])} for c in f0["grp"][nm].data_chunks() if len(c) > 0]
+        fresh[("chan", nm)] = seq
+        run, cat = 0, []
+        for item in seq:
+            if item[nm]["offset"] != run:
+                fails.append(({"kind": "fresh-stream", "stream": "channel"}, {"shape": shape, "channel": nm,
+                                                                               "offset": item[nm]["offset"], "run": run}))
+            cat.extend(item[nm]["data"])
+            run += item[nm]["len"]
+        if cat != proj.expected_elems(tys[nm], vals[nm]):
+            fails.append(({"kind": "fresh-stream", "stream": "channel", "what": "content"},
+                          {"shape": shape, "info": info, "channel": nm, "hex": e.data.hex()}))
+    seq = []
+    runs = {"x": 0, "y": 0}
+    for dc in f0.data_chunks():
+        parts = {nm: _chunk_obs(dc["grp"][nm], tys[nm]) for nm in ("x", "y") if "grp" in f0 and nm in f0["grp"]}
+        if not parts or all(p["len"] == 0 for p in parts.values()):
+            continue
+        for nm, p in parts.items():
+            if p["len"] and p["offset"] != runs[nm]:
+                fails.append(({"kind": "fresh-stream", "stream": "file"}, {"shape": shape, "channel": nm,
+                                                                            "offset": p["offset"], "run": runs[nm]}))
+            runs[nm] += p["len"]
+        seq.append(parts)
+    fresh[("file", "")] = seq
+    f0.close()
 
     def fail(i, o, exp, got):
         fails.append(({"kind": "history", "op": o["op"], "iter_kind": o.get("kind", "")},
@@ -138,27 +173,29 @@ def replay_history_case(case):
                 fail(i, o, exp, got)
                 break
         elif op == "iternew":
+            delivered[o["it"]] = 0
             if o["kind"] == "chan":
                 ch = chans.get(o["ch"])
                 iters[o["it"]] = iter(ch.data_chunks()) if ch is not None else iter(())
             else:
                 iters[o["it"]] = iter(f.data_chunks())
         elif op == "next":
+            # fresh-file equivalence, independent of where the library puts chunk boundaries: the k-th non-empty
+            # chunk of a generator must be the k-th non-empty chunk the same generator yields on a fresh file
             it = iters[o["it"]]
-            res = o["res"]
+            kind = o["kind"]
+            ref = fresh[("chan", o["ch"])] if kind == "chan" else fresh[("file", "")]
+            k = delivered.get(o["it"], 0)
             got = None
             try:
                 while True:
                     chunk = next(it)
-                    if o["kind"] == "chan":
+                    if kind == "chan":
                         if len(chunk) == 0:
                             continue
-                        got = {"x": _chunk_obs(chunk, tys[o["ch"]])}
+                        got = {o["ch"]: _chunk_obs(chunk, tys[o["ch"]])}
                     else:
-                        parts = {}
-                        for nm in ("x", "y"):
-                            if nm in chans:
-                                parts[nm] = _chunk_obs(chunk["grp"][nm], tys[nm])
+                        parts = {nm: _chunk_obs(chunk["grp"][nm], tys[nm]) for nm in ("x", "y") if nm in chans}
                         if all(p["len"] == 0 for p in parts.values()):
                             continue
                         got = parts
@@ -167,32 +204,16 @@ def replay_history_case(case):
                 got = "stop"
             except Exception as ex:  # noqa
                 got = {"exception": "%s: %s" % (type(ex).__name__, ex)}
-            if res["stop"]:
-                if got != "stop":
-                    fail(i, o, "stop", got)
-                    break
-                continue
-            if got == "stop" or "exception" in got:
-                fail(i, o, res, got)
+            want = ref[k] if k < len(ref) else "stop"
+            if got != "stop" and not (isinstance(got, dict) and "exception" in got):
+                delivered[o["it"]] = k + 1
+            if got != want:
+                fail(i, o, want, got)
                 break
-            names = [o["ch"]] if o["kind"] == "chan" else ["x", "y"]
-            bad = False
-            for nm in names:
-                part = res["x"] if o["kind"] == "chan" else res[nm]
-                g = got["x"] if o["kind"] == "chan" else got.get(nm)
-                if g is None:
-                    if part["count"] > 0:
-                        bad = True
-                    continue
-                exp_data = proj.expected_elems(tys[nm], vals[nm][part["first"]:part["first"] + part["count"]]) \
-                    if part["first"] >= 0 else None
-                if g["data"] != exp_data or (part["count"] > 0 and g["offset"] != part["first"]):
-                    bad = True
-            if bad:
-                fail(i, o, res, got)
-                break
+            if (got == "stop") != bool(o["res"]["stop"]):
+                obs["chunking_differs_from_model"] = obs.get("chunking_differs_from_model", 0) + 1
     f.close()
     key = zlib.crc32(repr((shape, [(o["op"], o.get("ch"), o.get("i"), o.get("off"), o.get("len"), o.get("it"))
                                   for o in rec["hist"]])).encode())
     nontrivial = sum(1 for o in rec["hist"] if o["op"] in ("index", "window", "next")) >= 2
-    return {"n": n, "keys": [key] if nontrivial else [], "fails": fails, "validated": 1}
+    return {"n": n, "keys": [key] if nontrivial else [], "fails": fails, "validated": 1, "obs": obs}
